@@ -7,6 +7,9 @@
 package main
 
 import (
+	"sync"
+	"time"
+	"crypto/ed25519"
 	"crypto/sha256"
 	"encoding/json"
 	"fmt"
@@ -101,6 +104,7 @@ type input struct {
 	Payload json.RawMessage `json:"payload,omitempty"` // roundtrip: the metadata that was dumped
 	IsLink  bool            `json:"is_link,omitempty"`
 	Sigs    []intoto.Signature `json:"sigs,omitempty"`
+	Sized   *sizedSpec      `json:"sized,omitempty"`   // sized: how to rebuild a signed document of an exact size
 	Large   *largeSpec      `json:"large,omitempty"`   // large: how to rebuild the (megabytes of) metadata
 	Pad     int             `json:"pad,omitempty"`     // padded: Text + Pad blanks + Junk is the file
 	Junk    string          `json:"junk,omitempty"`
@@ -445,6 +449,197 @@ func largeCase(sp largeSpec) lib.Case {
 		Input: lib.MustJSON(in), Impl: impl, Oracle: oracle}
 }
 
+// ---------- signed documents of an exact size ----------
+// Well-formed metadata files whose size sits around the powers of two that buffered or limited readers like.
+// The content is sized with a filler of plain ASCII (one byte per character in the file; four bytes per three
+// characters inside the base64 payload of an envelope), the metadata is signed with an ed25519 key, dumped by the
+// library, loaded with both loaders, compared, and its signature verified.
+
+type sizedSpec struct {
+	Wrapper string `json:"wrapper"`
+	Kind    string `json:"kind"`   // stdout | artifacts | readme
+	Target  int    `json:"target"` // file size in bytes (envelopes: the smallest reachable size >= target)
+	Name    string `json:"name"`
+	Seed    uint64 `json:"seed"`
+}
+
+func sizedKey(seed uint64) intoto.Key {
+	r := lib.NewRng(seed)
+	sd := make([]byte, ed25519.SeedSize)
+	for i := range sd {
+		sd[i] = byte(r.Intn(256))
+	}
+	priv := ed25519.NewKeyFromSeed(sd)
+	pub := priv.Public().(ed25519.PublicKey)
+	return intoto.Key{KeyID: hexStr(r, 64), KeyType: "ed25519", Scheme: "ed25519", KeyIDHashAlgorithms: []string{"sha256", "sha512"},
+		KeyVal: intoto.KeyVal{Public: fmt.Sprintf("%x", []byte(pub)), Private: fmt.Sprintf("%x", sd)}}
+}
+
+func filler(n int) string {
+	const line = "cc -O2 -Wall -c src/module_of_the_project/file.c -o build/file.o   "
+	var sb strings.Builder
+	sb.Grow(n + len(line))
+	for sb.Len() < n {
+		sb.WriteString(line)
+	}
+	return sb.String()[:n]
+}
+
+func buildSized(sp sizedSpec, fill int) any {
+	r := lib.NewRng(sp.Seed)
+	switch sp.Kind {
+	case "readme":
+		l := genLayout(r, true)
+		l.Readme = filler(fill)
+		return l
+	default:
+		l := intoto.Link{Type: "link", Name: "big", Materials: map[string]intoto.HashObj{}, Products: map[string]intoto.HashObj{},
+			ByProducts: map[string]interface{}{"return-value": float64(0), "stderr": ""}, Command: []string{"make"}, Environment: map[string]interface{}{}}
+		if sp.Kind == "artifacts" {
+			// about 130 bytes per product in an indented legacy file, 120 in an envelope: nine tenths of the target
+			n := sp.Target * 9 / 10 / 130
+			h := hexStr(r, 64)
+			for i := 0; i < n; i++ {
+				l.Products[fmt.Sprintf("out/dir%03d/file%07d.o", i%97, i)] = intoto.HashObj{"sha256": h}
+			}
+		}
+		l.ByProducts["stdout"] = filler(fill)
+		return l
+	}
+}
+
+func dumpSigned(name, w string, payload any, key intoto.Key) (string, error) {
+	path := tmpFile("sized-" + name + "-" + w + ".json")
+	os.Remove(path)
+	var md intoto.Metadata
+	if w == "L" {
+		md = &intoto.Metablock{Signed: payload}
+	} else {
+		env := &intoto.Envelope{}
+		if err := env.SetPayload(payload); err != nil {
+			return path, err
+		}
+		md = env
+	}
+	if err := md.Sign(key); err != nil {
+		return path, fmt.Errorf("sign: %w", err)
+	}
+	return path, md.Dump(path)
+}
+
+func fileSize(path string) int {
+	st, err := os.Stat(path)
+	if err != nil {
+		return -1
+	}
+	return int(st.Size())
+}
+
+// runSized returns the observable, what the property demands, and the size of the dumped file
+func runSized(sp sizedSpec) (impl, oracle string, size int) {
+	key := sizedKey(sp.Seed)
+	pub := key
+	pub.KeyVal.Private = ""
+	// first pass with an empty filler: everything but the filler
+	path, err := dumpSigned(sp.Name, sp.Wrapper, buildSized(sp, 0), key)
+	if err != nil {
+		return "DUMP-ERR(" + err.Error() + ")", "OK", 0
+	}
+	base := fileSize(path)
+	fill := sp.Target - base
+	if sp.Wrapper == "D" {
+		// file = k + 4*ceil(p/3) for a payload of p bytes: the smallest filler that reaches the target
+		fill = (sp.Target - base) * 3 / 4
+		if fill < 0 {
+			fill = 0
+		}
+	}
+	if fill < 0 {
+		return "TARGET-TOO-SMALL", "OK", base
+	}
+	var payload any
+	for try := 0; ; try++ {
+		payload = buildSized(sp, fill)
+		if path, err = dumpSigned(sp.Name, sp.Wrapper, payload, key); err != nil {
+			return "DUMP-ERR(" + err.Error() + ")", "OK", 0
+		}
+		size = fileSize(path)
+		if sp.Wrapper == "L" || (size >= sp.Target && size < sp.Target+4) || try > 8 {
+			break
+		}
+		fill += (sp.Target - size + 3) * 3 / 4
+		if size > sp.Target {
+			fill--
+		}
+	}
+	want := digest("OK" + sp.Wrapper + showPayload(normPayloadAny(payload)))
+	oracle = want + "|" + want + "|verify=OK"
+	if sp.Wrapper == "D" {
+		oracle = want + "|ERR|verify=OK"
+	}
+	if sp.Wrapper == "L" && size != sp.Target {
+		return fmt.Sprintf("SIZE-MISS(%d)", size), oracle, size
+	}
+	one := func(load func() (intoto.Metadata, error)) (string, intoto.Metadata) {
+		var md intoto.Metadata
+		out := lib.Recover(func() string {
+			m, err := load()
+			if err != nil {
+				return "ERR"
+			}
+			md = m
+			pl, _, w := contentOfMd(m)
+			return "OK" + w + showPayload(normPayloadAny(pl))
+		})
+		return digest(out), md
+	}
+	lm, md := one(func() (intoto.Metadata, error) { return intoto.LoadMetadata(path) })
+	ml, _ := one(func() (intoto.Metadata, error) {
+		var mb intoto.Metablock
+		if err := mb.Load(path); err != nil {
+			return nil, err
+		}
+		return &mb, nil
+	})
+	ver := "verify=NOT-LOADED"
+	if md != nil {
+		ver = lib.Recover(func() string {
+			if err := md.VerifySignature(pub); err != nil {
+				return "verify=ERR"
+			}
+			return "verify=OK"
+		})
+	}
+	os.Remove(path)
+	return lm + "|" + ml + "|" + ver, oracle, size
+}
+
+func normPayloadAny(p any) any {
+	if l, ok := p.(intoto.Layout); ok {
+		return normLayout(l)
+	}
+	return p
+}
+
+func contentOfMd(md intoto.Metadata) (any, []intoto.Signature, string) {
+	switch t := md.(type) {
+	case *intoto.Metablock:
+		return t.Signed, t.Signatures, "L"
+	case *intoto.Envelope:
+		return t.GetPayload(), t.Sigs(), "D"
+	}
+	return nil, nil, "?"
+}
+
+func sizedCase(sp sizedSpec) lib.Case {
+	impl, oracle, size := runSized(sp)
+	what := map[string]string{"stdout": "link with a long stdout by-product", "artifacts": "link with many products", "readme": "layout with a long readme"}[sp.Kind]
+	in := input{Kind: "sized", Wrapper: sp.Wrapper, Sized: &sp,
+		Desc: fmt.Sprintf("%s, signed (ed25519), dumped as a %d-byte file (%s), loaded with both loaders, signature verified", what, size, sp.Name)}
+	return lib.Case{Klass: "sized-roundtrip@" + sp.Name + "-" + map[string]string{"L": "legacy", "D": "dsse"}[sp.Wrapper],
+		Input: lib.MustJSON(in), Impl: impl, Oracle: oracle}
+}
+
 func paddedText(doc string, pad int, junk string) string {
 	var sb strings.Builder
 	sb.Grow(len(doc) + pad + len(junk))
@@ -562,6 +757,37 @@ func gen(out string, n int) {
 		sp.Seed = rr.U64()
 		w.Put(largeCase(sp))
 	}
+	// signed well-formed files of sizes around powers of two, one case per size, both wrappers
+	{
+		const MiB = 1 << 20
+		specs := []sizedSpec{
+			{"L", "stdout", MiB - 1, "1MiB-1", 0}, {"L", "artifacts", MiB + 1, "1MiB+1", 0}, {"D", "stdout", 4 * MiB, "4MiB", 0},
+			{"L", "readme", 8*MiB + 1, "8MiB+1", 0}, {"L", "stdout", 16*MiB - 1, "16MiB-1", 0}, {"L", "artifacts", 16 * MiB, "16MiB", 0},
+			{"L", "stdout", 16*MiB + 1, "16MiB+1", 0}, {"D", "stdout", 16*MiB + 1, "16MiB+1", 0},
+			{"D", "artifacts", 17 * MiB, "17MiB", 0}, {"L", "stdout", 33 * MiB, "33MiB", 0}}
+		if os.Getenv("C12_SIZED") != "" {
+			specs = specs[:0]
+		}
+		// independent of each other and of the rest: run side by side, written in the order of the list
+		res := make([]lib.Case, len(specs))
+		var wg sync.WaitGroup
+		for i := range specs {
+			specs[i].Seed = rr.U64()
+			wg.Add(1)
+			go func(i int) {
+				defer wg.Done()
+				t0 := time.Now()
+				res[i] = sizedCase(specs[i])
+				if os.Getenv("C12_TIMING") != "" {
+					fmt.Fprintf(os.Stderr, "sized %s %s: %v\n", specs[i].Name, specs[i].Wrapper, time.Since(t0))
+				}
+			}(i)
+		}
+		wg.Wait()
+		for _, c := range res {
+			w.Put(c)
+		}
+	}
 	// a valid document followed by blanks and junk, the junk starting around 64 KiB, 1 MiB, 2 MiB, 4 MiB
 	{
 		rp := rr.Fork()
@@ -676,6 +902,9 @@ func main() {
 			lm, ml := runLoaders(in.Text)
 			fmt.Println("impl LoadMetadata:   " + lm)
 			fmt.Println("impl Metablock.Load: " + ml)
+		case "sized":
+			impl, oracle, size := runSized(*in.Sized)
+			fmt.Printf("dumped file: %d bytes\nimpl (LoadMetadata|Metablock.Load|signature): %s\noracle:                                       %s\n", size, impl, oracle)
 		case "large":
 			impl, oracle, size := runLarge(*in.Large)
 			fmt.Printf("dumped file: %d bytes\nimpl:   %s\noracle: %s\n", size, impl, oracle)
